@@ -134,6 +134,11 @@ func (s *MonitoredItemService) ChangeNotification(n *ua.NodeID) {
 
 }
 
+// sameSession reports whether both sessions exist and are the same session.
+func sameSession(a, b *session) bool {
+	return a != nil && b != nil && a.AuthTokenID.String() == b.AuthTokenID.String()
+}
+
 func (s *MonitoredItemService) NextID() uint32 {
 	i := atomic.AddUint32(&s.id, 1)
 	if i == 0 {
@@ -278,13 +283,13 @@ func (s *MonitoredItemService) SetMonitoringMode(sc *uasc.SecureChannel, r ua.Re
 	for i := range req.MonitoredItemIDs {
 		id := req.MonitoredItemIDs[i]
 		item, ok := s.Items[id]
-
-		if item.Sub.Session.AuthTokenID.String() != sess.AuthTokenID.String() {
-			results[i] = ua.StatusBadSessionIDInvalid
-		}
-
 		if !ok {
 			results[i] = ua.StatusBadMonitoredItemIDInvalid
+			continue
+		}
+		if !sameSession(item.Sub.Session, sess) {
+			// not the caller's monitored item: leave it alone
+			results[i] = ua.StatusBadSessionIDInvalid
 			continue
 		}
 		item.Mode = req.MonitoringMode
@@ -341,10 +346,12 @@ func (s *MonitoredItemService) DeleteMonitoredItems(sc *uasc.SecureChannel, r ua
 		item, ok := s.Items[id]
 		if !ok {
 			results[i] = ua.StatusBadMonitoredItemIDInvalid
+			continue
 		}
-
-		if item.Sub.Session.AuthTokenID.String() != sess.AuthTokenID.String() {
+		if !sameSession(item.Sub.Session, sess) {
+			// not the caller's monitored item: leave it alone
 			results[i] = ua.StatusBadSessionIDInvalid
+			continue
 		}
 
 		// this function gets the lock so we need to do it in the background so it can happen after our lock is released.
